@@ -35,7 +35,9 @@ CLAIM = dict(
     "objective against this bound; exact_fit_reproduces is the idealised eps = 0 limit). That fitting NEVER INCREASES the residual "
     "relative to its start is 100 % OBSERVED on the implementation (no theorem: it is a property of scipy's Powell search). The "
     "objective closures, start vectors and result unpacking of find_balance are tied exactly with the optimiser replaced by a "
-    "recorder. clip=True is modelled (pipelineClip, clip01_range). For the unfixed accumulation (A_new·A_prev, "
+    "recorder. clip=True is modelled (pipelineClip, clip01_range). Long-lived objects: reset() "
+    "between stage fits is modelled (runOps; reset_forgets_history, reset_is_identity, runOps_stages), tied exactly with stubbed fits, "
+    "and searched on every class that has reset(). For the unfixed accumulation (A_new·A_prev, "
     "translation untouched in non-affine stages) the negation is proved by witnesses and equality is proved for commuting "
     "stages with zero translation. Round 2: reshape commutes with the row-vector action (apply_flatten_commute, apply_chunk_commute: "
     "4x6x3 <-> 24x3; apply_rows_commute for swatches[-1] / swatches[:-1]) and the ColorCorrection.correct_array pipeline is the "
@@ -645,6 +647,93 @@ def corr_objective_closures(ctx, d):
     return ctx.correspond("find_balance objective closures / start vector / result unpacking (optimiser replaced, exact)", lines, impl)
 
 
+def corr_reset_ops(ctx, d):
+    """one long-lived AdaptiveBalance through stage fits (stubbed, dyadic) interleaved with reset(): accumulated scaling,
+    translation and apply_balance vs the model (exact)"""
+    lines, impl = [], []
+    for i in range(ctx.pick(18, 150)):
+        ops = []
+        for k in range(ctx.rng.randint(2, 6)):
+            if k > 0 and ctx.rng.random() < 0.35:
+                ops.append("R")
+            else:
+                m = ctx.rng.choice(MODES) if k else "affine"
+                ops.append((m,) + rand_stage(ctx.rng, m))
+        if "R" not in ops:
+            ops.insert(1, "R")
+        n = ctx.rng.randint(1, 4)
+        pts = [[Fr(ctx.rng.randint(0, 8), 8) for _ in range(3)] for _ in range(n)]
+        lines.append(f"ops {len(ops)} " + " ".join("R" if o == "R" else "S " + stage_tokens(*o) for o in ops) + f" {n} "
+                     + " ".join(fmt(x) for p in pts for x in p))
+
+        def run():
+            src = np.array([[float(x) for x in p] for p in pts])
+            bal = d.AdaptiveBalance()
+            queue, log = [o for o in ops if o != "R"], []
+            with Stub(d, queue, log):
+                for o in ops:
+                    if o == "R":
+                        bal.reset()
+                    else:
+                        bal.find_balance(src, np.zeros_like(src), mode=o[0])
+            out = bal.apply_balance(src)
+            return (" ".join(fmt(x) for x in np.asarray(bal.balance_scaling).ravel()) + " | "
+                    + " ".join(fmt(x) for x in np.asarray(bal.balance_translation).ravel()) + " | "
+                    + " ".join(fmt(x) for x in np.asarray(out).ravel()))
+
+        r = call(run)
+        impl.append(repr(r) if isinstance(r, Raised) else r)
+    return ctx.correspond("AdaptiveBalance: stage fits interleaved with reset() on one object (stubbed fits, exact)", lines, impl)
+
+
+def check_reset_case(d, case):
+    """long-lived balance objects: every class that has (or inherits) reset(): non-identity balance (incl. a translation) ->
+    reset() -> the object must act as the identity, and a following exact fit must behave like on a fresh object"""
+    cname = case["cls"]
+    cls = getattr(d, cname, None)
+    if cls is None or not hasattr(cls, "reset"):
+        return []
+    src = np.array(case["src"], float)
+    A0, b0 = np.array(case["A0"], float), np.array(case["b0"], float)
+    A, b = np.array(case["A"], float), np.array(case["b"], float)
+    mode = case["mode"]
+    bad = []
+
+    def run():
+        bal = cls()
+        if case["how"] == "fit" and cname in ("AffineBalance", "AdaptiveBalance"):
+            bal.find_balance(src, src @ A0 + b0)
+        else:
+            bal.balance_scaling = A0.copy()
+            if hasattr(bal, "balance_translation"):
+                bal.balance_translation = b0.copy()
+        bal.reset()
+        ident = np.asarray(bal.apply_balance(src), float)
+        dst = src @ A + (b if (mode == "affine") else 0.0)
+        if cname == "AdaptiveBalance":
+            bal.find_balance(src, dst, mode=mode)
+            fresh = d.AdaptiveBalance()
+            fresh.find_balance(src, dst, mode=mode)
+        else:
+            bal.find_balance(src, dst)
+            fresh = cls()
+            fresh.find_balance(src, dst)
+        return ident, np.asarray(bal.apply_balance(src), float), np.asarray(fresh.apply_balance(src), float), dst
+
+    r = call(run)
+    if isinstance(r, Raised):
+        return [(f"C12:{cname}.reset:raises", f"{r}")]
+    ident, after, fresh, dst = r
+    if float(np.abs(ident - src).max()) > 0:
+        bad.append((f"C12:{cname}.reset:not-identity",
+                    f"after reset() apply_balance(x) differs from x by {float(np.abs(ident - src).max()):.3g} (a stale balance_translation or scaling)"))
+    e1, e2 = float(np.abs(after - dst).max()), float(np.abs(fresh - dst).max())
+    if e1 > TOL_FIT and e2 <= TOL_FIT:
+        bad.append((f"C12:{cname}:fit-after-reset≠fresh({mode})",
+                    f"exact {mode} fit after reset() misses the destinations by {e1:.3g}, a fresh object by {e2:.3g}"))
+    return bad
+
+
 def check_layout_case(d, case):
     """reshape commutes with apply_balance: flat Nx3 vs 4x6x3 (and image-like HxWx3)"""
     mode = case["mode"]
@@ -892,6 +981,17 @@ def oracle(ctx, d):
                     cast=[1.25, 0.9, 0.7] if i % 2 == 0 else [rng.uniform(0.7, 1.3) for _ in range(3)])
         ctx.count(("order", case["mode"], i))
         report(ctx, check_order_case(d, case, ctx.cov), case)
+    # long-lived objects: reset() on every class that has one
+    for i in range(ctx.pick(8, 48)):
+        cname = ("AdaptiveBalance", "AffineBalance", "ColorBalance", "WhiteBalance")[i % 4]
+        mode = ("diagonal", "linear", "affine")[(i // 4) % 3] if cname == "AdaptiveBalance" else {"AffineBalance": "affine", "ColorBalance": "linear", "WhiteBalance": "diagonal"}[cname]
+        A0, _ = rand_truth(rng, "affine", amp=0.2)
+        b0 = np.array([sgn * rng.uniform(0.03, 0.08) for sgn in (1, -1, 1)])
+        A, b = rand_truth(rng, mode)
+        case = dict(reset=True, cls=cname, mode=mode, how=("fit", "set")[i % 2], src=rand_swatches(rng, flat=True).tolist(),
+                    A0=A0.tolist(), b0=b0.tolist(), A=A.tolist(), b=b.tolist())
+        ctx.count(("reset", cname, mode, i))
+        report(ctx, check_reset_case(d, case), case)
     # array layouts
     for i in range(ctx.pick(12, 120)):
         mode = MODES[i % 3]
@@ -930,6 +1030,8 @@ def oracle(ctx, d):
 def _dispatch(d, case):
     if case.get("own_targets"):
         return check_own_targets_case(d, case)
+    if case.get("reset"):
+        return check_reset_case(d, case)
     if case.get("layout"):
         return check_layout_case(d, case)
     if case.get("pipeline"):
@@ -972,6 +1074,7 @@ def run(ctx):
     corr_apply_and_objective(ctx, d)
     corr_pipeline(ctx, d)
     corr_entry_points(ctx, d)
+    corr_reset_ops(ctx, d)
     corr_objective_closures(ctx, d)
     oracle(ctx, d)
     ctx.cov["explanation"] = CLAIM["text"]
